@@ -103,7 +103,7 @@ def c20_map(R):
     """For every text of 1-5 lines with arbitrary line lengths and every offset in [0, |text|]: GetLineFromOffset(o) is the number of
     newlines before o, i.e. the r with start(r) <= o < start(r+1), and GetLineStartOffset(r) = sum of (len+1) of the lines before r."""
     import nsl.ast as a
-    for k in (1, 2, 3, 4, 5):
+    for k in ((1, 2, 3, 4, 5) if R.tier != "thorough" else (1, 2, 3, 4, 5, 6, 7, 8)):       # number of lines (thorough tier: up to 8)
         def run(ctx, k=k):
             m, lens, starts, total = _mapping(ctx, k)
             off = ctx.int("off")
